@@ -21,7 +21,7 @@ pub fn kinds_for(prop: &str) -> Vec<&'static str> {
         "C11" => vec!["model", "garbage", "capacity", "stack-alloc", "clone-count"],
         "C18" => vec!["alloc-shape", "alloc-layout", "alloc-invalid", "alloc-leak", "align", "meta", "rawparts"],
         "C06" => vec!["double-drop", "corrupt-drop", "corrupt-clone", "clone-of-dead", "dup", "dead-visible", "garbage", "model", "guard", "stale-write", "len>cap", "crash", "meta", "view"],
-        "C19" => vec!["model", "garbage", "stack-alloc", "capacity", "iter", "clone-count", "double-drop", "leak", "dup"],
+        "C19" => vec!["model", "garbage", "stack-alloc", "capacity", "iter", "clone-count", "double-drop", "leak", "dup", "type-admit", "type-reject", "view", "handle"],
         "C07" => vec!["forget-prefix", "model", "garbage", "dup", "dead-visible", "double-drop", "corrupt-drop", "iter"],
         "C13" => vec!["handle", "model", "garbage", "view"],
         "C17" => vec!["rawparts", "model", "garbage", "leak", "double-drop", "alloc-leak", "alloc-shape", "alloc-layout", "alloc-invalid", "dup"],
@@ -109,6 +109,9 @@ pub fn run(ctx: &mut Ctx) {
         "C09" => {
             cfgs.retain(|c| c.cloneable);
             fam::exhaustive(ctx, "lazy", &cfgs, l.min(5), false, &fam::lazy_ops);
+            // every way of handing a lazy clone to push / insert (checked and unchecked entry points, `LazyClone::new`, lazy clones
+            // of a user-implemented cloneable value), from small states
+            fam::exhaustive(ctx, "elem", &cfgs, 2, false, &fam::elem_seqs);
         }
         "C10" => {
             cfgs.retain(|c| c.resizable);
@@ -122,6 +125,7 @@ pub fn run(ctx: &mut Ctx) {
             // a vector that takes over another element type (clone_from) must take over all of it; getters across backends
             crate::special::c08_clone_from(ctx);
             crate::special::meta_grid(ctx);
+            crate::special::swap_type_mismatch(ctx);
         }
         "C12" => {
             crate::special::c12(ctx);
@@ -196,6 +200,7 @@ pub fn run(ctx: &mut Ctx) {
             fam::histories(ctx, "mixed-hist", &cfgs, &hist(thorough, true, true, false, true));
             crate::special::c11_grid(ctx);
             crate::special::stack_overaligned(ctx);
+            crate::special::swap_type_mismatch(ctx);
         }
         "C18" => {
             cfgs.retain(|c| c.mem == hvcore::rigapi::MemKind::Heap && !c.elem.heap);
